@@ -296,13 +296,142 @@ pub fn dump(storage: &Storage, sites: &[Site], prefix: &str, out: &mut Vec<Strin
 }
 
 pub fn run_capture(prog: &Program, cfg: &Config) -> (Vec<SharedStorage>, bool) {
+    let (s, p, _) = run_capture_log(prog, cfg);
+    (s, p)
+}
+
+pub fn run_capture_log(prog: &Program, cfg: &Config) -> (Vec<SharedStorage>, bool, Vec<program::FeCall>) {
     let (dispatch, storages) = cfg.build();
-    let res = catch_unwind(AssertUnwindSafe(|| {
-        dispatcher::with_default(&dispatch, || {
-            program::run(&dispatch, prog);
-        })
-    }));
-    (storages, res.is_err())
+    let res = catch_unwind(AssertUnwindSafe(|| dispatcher::with_default(&dispatch, || program::run(&dispatch, prog))));
+    match res {
+        Ok(log) => (storages, false, log),
+        Err(_) => (storages, true, vec![]),
+    }
+}
+
+/// Independent reference interpreter of tracing's parent/scope rules (written from the statement
+/// of C05, not from the layer): what a capture layer with filter `flt` must hold after the given
+/// sequence of subscriber calls. Returns the dump in the format of `dump`.
+pub fn expected_dump(sites: &[Site], flt: &Filt, log: &[program::FeCall], prefix: &str) -> Vec<String> {
+    use program::FeCall;
+    use std::collections::HashMap;
+    struct Sp { k: usize, vals: Vec<(String, crate::proto::Val)>, e: usize, x: usize, par: Option<usize>, ch: Vec<usize>, ev: Vec<usize>, ff: Vec<usize>, id: u64 }
+    struct Evn { k: usize, vals: Vec<(String, crate::proto::Val)>, par: Option<usize> }
+    let enabled = |k: usize| flt.enabled(dynsite::metadata_for(&sites[k]));
+    let values = |k: usize, vals: &program::PVals| -> Vec<(String, crate::proto::Val)> {
+        let mut out = vec![];
+        for (i, tok) in vals {
+            if let (Some(name), Some(v)) = (sites[k].fields.get(*i), super::values::expected_capture(tok)) {
+                crate::spec::ordered_insert(&mut out, name, v);
+            }
+        }
+        out
+    };
+    let mut stack: Vec<(u64, bool)> = vec![];
+    let mut parent: HashMap<u64, Option<u64>> = HashMap::new();
+    let mut handles: HashMap<u64, i64> = HashMap::new();
+    let mut cap: HashMap<u64, usize> = HashMap::new();
+    let mut spans: Vec<Sp> = vec![];
+    let mut events: Vec<Evn> = vec![];
+    fn closed(id: u64, handles: &HashMap<u64, i64>, stack: &[(u64, bool)], parent: &HashMap<u64, Option<u64>>) -> bool {
+        handles.get(&id).copied().unwrap_or(0) <= 0
+            && !stack.iter().any(|e| e.0 == id)
+            && parent.iter().filter(|(_, p)| **p == Some(id)).all(|(c, _)| closed(*c, handles, stack, parent))
+    }
+    let current = |stack: &Vec<(u64, bool)>| stack.iter().rev().find(|e| !e.1).map(|e| e.0);
+    let nearest = |mut cur: Option<u64>, cap: &HashMap<u64, usize>, parent: &HashMap<u64, Option<u64>>| -> Option<usize> {
+        while let Some(id) = cur {
+            if let Some(c) = cap.get(&id) {
+                return Some(*c);
+            }
+            cur = parent.get(&id).copied().flatten();
+        }
+        None
+    };
+    let resolve = |tok: &str, stack: &Vec<(u64, bool)>| -> Option<u64> {
+        match tok {
+            "ctx" => current(stack),
+            "root" => None,
+            p => p.strip_prefix("p:").and_then(|x| x.parse().ok()),
+        }
+    };
+    for call in log {
+        match call {
+            FeCall::Register(_) => {}
+            FeCall::NewSpan { k, id, parent: ptok, vals } => {
+                let par = resolve(ptok, &stack);
+                parent.insert(*id, par);
+                handles.insert(*id, 1);
+                if enabled(*k) {
+                    let pc = nearest(par, &cap, &parent);
+                    let idx = spans.len();
+                    spans.push(Sp { k: *k, vals: values(*k, vals), e: 0, x: 0, par: pc, ch: vec![], ev: vec![], ff: vec![], id: *id });
+                    if let Some(p) = pc {
+                        spans[p].ch.push(idx);
+                    }
+                    cap.insert(*id, idx);
+                }
+            }
+            FeCall::Record { id, k, vals } => {
+                if let Some(c) = cap.get(id) {
+                    for (n, v) in values(*k, vals) {
+                        crate::spec::ordered_insert(&mut spans[*c].vals, &n, v);
+                    }
+                }
+            }
+            FeCall::Follows(a, b) => {
+                if let (Some(ca), Some(cb)) = (cap.get(a), cap.get(b)) {
+                    if !closed(*b, &handles, &stack, &parent) {
+                        let cb = *cb;
+                        spans[*ca].ff.push(cb);
+                    }
+                }
+            }
+            FeCall::Enter(id) => {
+                let dup = stack.iter().any(|e| e.0 == *id);
+                stack.push((*id, dup));
+                if let Some(c) = cap.get(id) {
+                    spans[*c].e += 1;
+                }
+            }
+            FeCall::Exit(id) => {
+                if let Some(p) = stack.iter().rposition(|e| e.0 == *id) {
+                    stack.remove(p);
+                }
+                if let Some(c) = cap.get(id) {
+                    spans[*c].x += 1;
+                }
+            }
+            FeCall::Clone(id) => *handles.entry(*id).or_default() += 1,
+            FeCall::TryClose(id) => *handles.entry(*id).or_default() -= 1,
+            FeCall::Event { k, parent: ptok, vals } => {
+                if enabled(*k) {
+                    let pc = nearest(resolve(ptok, &stack), &cap, &parent);
+                    let idx = events.len();
+                    events.push(Evn { k: *k, vals: values(*k, vals), par: pc });
+                    if let Some(p) = pc {
+                        spans[p].ev.push(idx);
+                    }
+                }
+            }
+        }
+    }
+    let kname = |k: usize| sites.iter().position(|x| *x == sites[k]).map_or("k?".into(), |i| format!("k{i}"));
+    let mut out = vec![];
+    for (i, s) in spans.iter().enumerate() {
+        out.push(format!(
+            "{prefix}sp {i} {} {} e={} x={} c={} par={} ch={} ev={} ff={}",
+            kname(s.k), entries_tok(&s.vals), s.e, s.x, u8::from(closed(s.id, &handles, &stack, &parent)),
+            s.par.map_or("-".into(), |p| p.to_string()), idxs(&s.ch), idxs(&s.ev), idxs(&s.ff)
+        ));
+    }
+    for (j, e) in events.iter().enumerate() {
+        out.push(format!("{prefix}evn {j} {} {} par={}", kname(e.k), entries_tok(&e.vals), e.par.map_or("-".into(), |p| p.to_string())));
+    }
+    let roots: Vec<usize> = (0..spans.len()).filter(|i| spans[*i].par.is_none()).collect();
+    let root_events: Vec<usize> = (0..events.len()).filter(|i| events[*i].par.is_none()).collect();
+    out.push(format!("{prefix}roots sp={} ev={}", idxs(&roots), idxs(&root_events)));
+    out
 }
 
 impl Suite for Capture {
@@ -375,7 +504,7 @@ impl Suite for Capture {
             return out;
         }
         let cfg = Config::parse(&rest);
-        let (storages, panicked) = run_capture(&prog, &cfg);
+        let (storages, panicked, fe_log) = run_capture_log(&prog, &cfg);
         if panicked {
             out.obs.push("panic".into());
             out.fails.push("C16 a capture layer callback panicked".into());
@@ -400,6 +529,14 @@ impl Suite for Capture {
                 }
             }
             out.obs.extend(d.iter().cloned());
+            // ---- C05: the storage against the independent reference interpreter
+            if !panicked {
+                let want = expected_dump(&prog.sites, &cfg.layers[i], &fe_log, &format!("L{i} "));
+                if want != d {
+                    let k = want.iter().zip(&d).position(|(a, b)| a != b).unwrap_or(want.len().min(d.len()));
+                    out.fails.push(format!("C05 layer {i} storage differs from what the program did: captured `{}`, expected `{}`", d.get(k).map_or("<end>", String::as_str), want.get(k).map_or("<end>", String::as_str)));
+                }
+            }
             dumps.push(d);
         }
         // ---- C16: each layer captures what it would capture alone
